@@ -11,6 +11,8 @@ import (
 	"net/url"
 	"reflect"
 	"strings"
+	"sync"
+	"sync/atomic"
 	"testing"
 	"time"
 	"unicode/utf8"
@@ -465,6 +467,26 @@ func c16Case(r *mon.Run, raw string, e, n *int64) {
 			return
 		}
 	}
+	// the same *url.URL redacted again after its other components changed: the result follows the input
+	{
+		u := *base
+		u.User = creds[4].info()
+		p1 := urlutil.RedactUserinfo(&u)
+		_ = p1.String()
+		u.Path, u.RawPath, u.RawQuery, u.Fragment, u.RawFragment = u.Path+"/changed", "", "changed=1", "changed", ""
+		in := u
+		p2 := urlutil.RedactUserinfo(&u)
+		*e++
+		if p2 == nil || !reflect.DeepEqual(withoutUser(p2), withoutUser(&in)) {
+			r.Violation("redact-stale:"+mon.Q(raw), fmt.Sprintf("RedactUserinfo of the same *url.URL (%s) after its path/query/fragment changed returned %q: components of the earlier call", mon.Q(raw), fmt.Sprint(p2)), map[string]any{"raw": raw})
+		}
+		u.User = creds[11].info()
+		p3 := urlutil.RedactUserinfo(&u)
+		*e++
+		if p3 == nil || p2 == nil || p3.String() != p2.String() {
+			r.Violation("redact-stale-cred:"+mon.Q(raw), fmt.Sprintf("RedactUserinfo of the same *url.URL (%s) with other credentials gives a different text", mon.Q(raw)), map[string]any{"raw": raw})
+		}
+	}
 	if mask != "xxxxx:xxxxx" {
 		r.Violation("redact-mask", fmt.Sprintf("the mask is %q, not the fixed xxxxx:xxxxx", mask), map[string]any{"raw": raw})
 	}
@@ -561,6 +583,62 @@ func TestC16(t *testing.T) {
 		}
 		return out
 	}())
+	if r.Finish() > 0 {
+		t.Fail()
+	}
+}
+
+// TestC16Concurrent uses one *url.URL from many goroutines at once: the input
+// must never be modified, not even transiently (the race detector sees a
+// transient write; the readers see a masked or torn value).
+func TestC16Concurrent(t *testing.T) {
+	r := mon.Start("C16", "concurrent")
+	rounds := r.Pick(300, 6000)
+	var calls atomic.Int64
+	mon.Parallel(rounds, func(w, lo, hi int) {
+		for round := lo; round < hi; round++ {
+			c := creds[1+round%(len(creds)-1)]
+			u := &url.URL{Scheme: "https", User: c.info(), Host: fmt.Sprintf("h%d.example", round), Path: "/p", RawQuery: "q=1"}
+			orig := u.String()
+			origUser := u.User
+			red := urlutil.RedactUserinfo(u).String()
+			var wg sync.WaitGroup
+			for g := 0; g < 6; g++ {
+				wg.Add(1)
+				go func() {
+					defer wg.Done()
+					for i := 0; i < 20; i++ {
+						calls.Add(1)
+						switch g % 3 {
+						case 0:
+							ue := &url.Error{Op: "Get", URL: orig, Err: errors.New("boom")}
+							urlutil.RedactUserinfoInURLError(u, ue)
+							if ue.URL != red {
+								r.Violation("conc-urlerr", fmt.Sprintf("concurrent RedactUserinfoInURLError wrote %q into the error, want %q", ue.URL, red), map[string]any{"round": round})
+							}
+						case 1:
+							if got := urlutil.RedactUserinfo(u).String(); got != red {
+								r.Violation("conc-redact", fmt.Sprintf("concurrent RedactUserinfo returned %q, want %q", got, red), map[string]any{"round": round})
+							}
+						default:
+							// a plain reader of the shared input
+							if got := u.String(); got != orig || u.User != origUser {
+								r.Violation("conc-input-modified", fmt.Sprintf("a concurrent reader saw the input URL as %q while redaction was running, it is %q", got, orig), map[string]any{"round": round})
+							}
+						}
+					}
+				}()
+			}
+			wg.Wait()
+			if u.String() != orig || u.User != origUser {
+				r.Violation("conc-input-after", fmt.Sprintf("the input URL is %q after concurrent redaction, it was %q", u.String(), orig), map[string]any{"round": round})
+			}
+		}
+	})
+	r.Eval(calls.Load())
+	r.NontrivialN(int64(rounds))
+	r.Count("rounds", int64(rounds))
+	r.Sample(map[string]any{"round": "one *url.URL shared by 6 goroutines: RedactUserinfoInURLError, RedactUserinfo and plain readers of the input"})
 	if r.Finish() > 0 {
 		t.Fail()
 	}
